@@ -118,6 +118,8 @@ def gen_plan(seed, tier="quick"):
         "chunk_ref": chunk_ref, "chunk": chunk, "n_jobs": n_jobs,
         "p_switch": r.choice([0.0, 0.0, 0.02, 0.1, 0.5, 1.0]), "victim": r.choice([None, None, 0, n_jobs - 1]),
         "order": r.choice([None, None, "reverse", "shuffle"]), "sched_seed": r.randrange(1 << 30), "trace": None,
+        "io_mode": r.random() < 0.4,          # pre-emption decisions only around lines that touch files / store into arrays
+        "delay": ({"tf": r.random(), "ef": r.random(), "where": r.choice(["end", "end", "start", "any"])} if r.random() < 0.4 else None),   # hold one chunk task at a file-touching line
         # an earlier extraction in the same process on another probe geometry with the same channel count
         "prelude": r.choice([None, None] + [f for f in ("NP1", "NP21", "NP24") if f != fixture]),
         # history: an earlier extraction on this .cbin died while decompressing into the shared scratch directory
@@ -155,6 +157,16 @@ def run_plan(plan):
         rm_scratch(base)
 
 
+def _delay_at(d, cnt):
+    w = d.get("where", "any")
+    span = min(8, cnt)
+    if w == "end":
+        return cnt - 1 - int(d["ef"] * span)
+    if w == "start":
+        return int(d["ef"] * span)
+    return int(d["ef"] * cnt)
+
+
 def _neighbours(x, y, radius=200.0):
     nc = len(x)
     dx = x[:, None] - x[None, :]
@@ -170,7 +182,9 @@ def _neighbours(x, y, radius=200.0):
 
 def _extract(plan, src, outdir, chunk, n_jobs, schedule, scratch):
     SCHED.reset()
-    if schedule is None:
+    if schedule is not None and schedule.get("count_io"):
+        SCHED.reset(rng=None, record_memmap=True, count_io=True)
+    elif schedule is None:
         SCHED.reset(rng=None, record_memmap=True)
     elif schedule.get("trace") is not None:
         SCHED.reset(trace=schedule["trace"], record_memmap=True)
@@ -182,7 +196,9 @@ def _extract(plan, src, outdir, chunk, n_jobs, schedule, scratch):
         elif schedule.get("order") == "shuffle":
             order = list(range(n_jobs))
             rr.shuffle(order)
-        SCHED.reset(rng=rr, p_switch=schedule["p_switch"], victim=schedule.get("victim"), order=order, record_memmap=True)
+        SCHED.reset(rng=rr, p_switch=(max(schedule["p_switch"], 0.3) if schedule.get("io_mode") else schedule["p_switch"]),
+                    victim=schedule.get("victim"), order=order, record_memmap=True, io_mode=bool(schedule.get("io_mode")),
+                    delay=schedule.get("delay"))
     sp = np.array(plan["spikes"], dtype=np.int64).reshape(-1, 3)
     err = None
     kw = {}
@@ -200,21 +216,17 @@ def _extract(plan, src, outdir, chunk, n_jobs, schedule, scratch):
     except Exception as e:
         import traceback
         err = (e, traceback.format_exc())
-    return {"err": err, "trace": [list(t) for t in SCHED.trace], "tasks": list(SCHED.task_log), "mm": list(SCHED.mm_writes)}
+    return {"err": err, "trace": [list(t) for t in SCHED.trace], "tasks": list(SCHED.task_log), "mm": list(SCHED.mm_writes),
+            "io_counts": dict(SCHED.io_counts)}
 
 
 def _real_joblib_extract(plan, src, outdir, scratch):
+    """The same call (same options as the simulated runs) under real joblib / loky worker processes."""
     import joblib
     saved = (wfx.__dict__["Parallel"], wfx.__dict__["delayed"])
     wfx.__dict__["Parallel"], wfx.__dict__["delayed"] = joblib.Parallel, joblib.delayed
-    sp = np.array(plan["spikes"], dtype=np.int64).reshape(-1, 3)
-    err = None
     try:
-        wfx.extract_wfs_cbin(src, outdir, sp[:, 0], sp[:, 1], sp[:, 2], max_wf=plan["max_wf"], chunksize_samples=plan["chunk"],
-                             n_jobs=max(2, plan["n_jobs"]), preprocess_steps=[], seed=plan["wf_seed"], scratch_dir=scratch)
-    except Exception as e:
-        import traceback
-        err = (e, traceback.format_exc())
+        res = _extract(plan, src, outdir, plan["chunk"], max(2, plan["n_jobs"]), None, scratch)
     finally:
         wfx.__dict__["Parallel"], wfx.__dict__["delayed"] = saved
         try:
@@ -222,7 +234,7 @@ def _real_joblib_extract(plan, src, outdir, scratch):
             get_reusable_executor().shutdown(wait=True)
         except Exception:
             pass
-    return {"err": err}
+    return {"err": res["err"]}
 
 
 def sweep_plans(tier, verif_seed):
@@ -280,9 +292,18 @@ def _run(plan, base):
         pre = plan.get("preprocess") == "default"
         for tag, chunk, n_jobs, schedule in (("ref", plan["chunk"] if pre else plan["chunk_ref"], 1, None),
                                              ("sim", plan["chunk"], plan["n_jobs"], {"seed": plan["sched_seed"], "p_switch": plan["p_switch"],
-                                                                                   "victim": plan["victim"], "order": plan["order"], "trace": plan.get("trace")})):
+                                                                                   "victim": plan["victim"], "order": plan["order"], "trace": plan.get("trace"), "io_mode": plan.get("io_mode")})):
             od = base / f"out_{tag}"
             od.mkdir(exist_ok=True)
+            if tag == "sim" and plan.get("delay") and n_jobs > 1 and schedule.get("trace") is None:
+                pre_od = base / "out_pre"
+                pre_od.mkdir()
+                rp = _extract(plan, src, pre_od, chunk, n_jobs, {"count_io": True}, base / "scratch")
+                busy = sorted(t for t, c in rp["io_counts"].items() if c > 0)
+                if busy and not rp["err"]:
+                    t = busy[min(len(busy) - 1, int(plan["delay"]["tf"] * len(busy)))]
+                    schedule = dict(schedule, delay={"task": t, "at": _delay_at(plan["delay"], rp["io_counts"][t])})
+                    probe("one_chunk_task_held_at_a_file_touching_line")
             res = _extract(plan, src, od, chunk, n_jobs, schedule, base / "scratch")
             stats["steps"] += sum(t[1] for t in res["trace"])
             if res["err"]:
@@ -383,7 +404,7 @@ def _prelude(plan, base, probe, stats, sigbase):
     # same worker count as the main extraction (reused workers keep their process-local state) and
     # the same scratch directory / file name as the main extractions
     nj = plan["n_jobs"]
-    res = _extract(p2, src, od, 1000, nj, None if nj == 1 else {"seed": plan["sched_seed"] ^ 5, "p_switch": plan["p_switch"]}, base / "scratch")
+    res = _extract(p2, src, od, 1000, nj, None if nj == 1 else {"seed": plan["sched_seed"] ^ 5, "p_switch": plan["p_switch"], "io_mode": plan.get("io_mode")}, base / "scratch")
     if res["err"]:
         e, tb = res["err"]
         raise Violation("C13.W1", f"raises:{type(e).__name__}", f"prelude extract_wfs_cbin raised {type(e).__name__}: {e}")
@@ -524,7 +545,7 @@ def _check_files(plan, tag, out, V, neigh, sp, valid, ns, nap, od, res, chunk, n
 
 
 def shrink_candidates(plan):
-    for key, val in (("form", "bin"), ("preprocess", "none"), ("order", None), ("victim", None), ("p_switch", 0.0), ("prelude", None), ("interrupted_first", None)):
+    for key, val in (("form", "bin"), ("delay", None), ("io_mode", False), ("preprocess", "none"), ("order", None), ("victim", None), ("p_switch", 0.0), ("prelude", None), ("interrupted_first", None)):
         if plan.get(key) != val:
             c = dict(plan)
             c[key] = val
